@@ -7,6 +7,7 @@ import (
 	"encoding/json"
 	"fmt"
 	"sort"
+	"strings"
 	"time"
 
 	"verif/mc/drive"
@@ -39,6 +40,15 @@ func workloads() map[string]families.Workload {
 					w := families.Workload{Name: fmt.Sprintf("%s/%s/big", tn, cd), Target: tn, Recs: families.MixedRecords(tt, 150), Batches: []int{70, 50, 30}, Page: 16, Codec: cd}
 					wlCache[w.Name] = w
 				}
+			}
+		}
+		// files without any row group (only magic + footer + magic) and files
+		// with a single record
+		for _, tn := range []string{"mini", "person"} {
+			tt := sut.Get(tn)
+			for _, cd := range families.Codecs3() {
+				wlCache[fmt.Sprintf("%s/%s/empty", tn, cd)] = families.Workload{Name: fmt.Sprintf("%s/%s/empty", tn, cd), Target: tn, Recs: nil, Batches: nil, Page: 0, Codec: cd}
+				wlCache[fmt.Sprintf("%s/%s/one", tn, cd)] = families.Workload{Name: fmt.Sprintf("%s/%s/one", tn, cd), Target: tn, Recs: families.MixedRecords(tt, 1), Batches: []int{1}, Page: 0, Codec: cd}
 			}
 		}
 		t := sut.Get("flat24")
@@ -111,6 +121,56 @@ func region(w families.Workload, n int) string {
 	return "trailing-magic"
 }
 
+// tailGrid: the reader locates the footer from the last 8 bytes only, so
+// whether a cut inside the tail is noticed depends on what the bytes before
+// it happen to be (the end of the footer, i.e. the last row group's row count
+// and the footer's own length).  For a grid of (number of row groups, rows in
+// the last row group) every cut in the last 12 bytes is tried.
+func tailGrid(c *fw.Ctx) {
+	maxG, maxR := 4, 320
+	if c.Thorough() {
+		maxG, maxR = 12, 1300
+	}
+	c.Bound("tail_grid", fmt.Sprintf("mini and flat3, snappy: row groups 1..%d x rows in the last row group 1..%d x cuts of 1..12 bytes", maxG, maxR))
+	for _, tn := range []string{"mini", "flat3"} {
+		if !sut.Has(tn) {
+			continue
+		}
+		t := sut.Get(tn)
+		for g := 1; g <= maxG; g++ {
+			for r := 1; r <= maxR; r++ {
+				if !c.Mine() {
+					continue
+				}
+				if r&31 == 0 && c.Expired() {
+					c.Capped("time budget hit in the tail grid")
+					return
+				}
+				name := fmt.Sprintf("%s/snappy/grid-g%d-r%d", tn, g, r)
+				var batches []int
+				for i := 0; i < g-1; i++ {
+					batches = append(batches, 2)
+				}
+				batches = append(batches, r)
+				w := families.Workload{Name: name, Target: tn, Recs: families.MixedRecords(t, 2*(g-1)+r), Batches: batches, Page: 0, Codec: sut.Snappy}
+				wlCache[name] = w
+				file := fileOf(w)
+				for cut := 1; cut <= 12 && cut < len(file); cut++ {
+					n := len(file) - cut
+					c.Eval()
+					c.Distinct(fmt.Sprintf("%s|%d", name, n))
+					tc := tcase{name, n}
+					if msg := runPrefix(w, n); msg != "" {
+						c.Violate(fmt.Sprintf("%s|tail-cut-%d|%s", tn, cut, classify(msg)), msg+fmt.Sprintf("\nworkload %s: %d row groups, %d rows in the last one, file cut by %d bytes", name, g, r, cut), "prefix", tc)
+					}
+				}
+				delete(fileCache, name)
+				delete(wlCache, name)
+			}
+		}
+	}
+}
+
 func run(c *fw.Ctx) {
 	thoroughTier = c.Thorough()
 	var names []string
@@ -123,6 +183,7 @@ func run(c *fw.Ctx) {
 		bd = append(bd, fmt.Sprintf("%s (%d bytes)", name, len(fileOf(workloads()[name]))))
 	}
 	c.Bound("files", bd)
+	defer tailGrid(c)
 	for _, name := range names {
 		w := workloads()[name]
 		file := fileOf(w)
@@ -170,7 +231,25 @@ func replay(c *fw.Ctx, kind string, data json.RawMessage) string {
 	}
 	w, ok := workloads()[tc.Workload]
 	if !ok {
-		return "unknown workload " + tc.Workload
+		var tn string
+		var g, r int
+		parts := strings.Split(tc.Workload, "/")
+		if len(parts) == 3 {
+			tn = parts[0]
+			if _, err := fmt.Sscanf(parts[2], "grid-g%d-r%d", &g, &r); err == nil && sut.Has(tn) {
+				t := sut.Get(tn)
+				var batches []int
+				for i := 0; i < g-1; i++ {
+					batches = append(batches, 2)
+				}
+				batches = append(batches, r)
+				w = families.Workload{Name: tc.Workload, Target: tn, Recs: families.MixedRecords(t, 2*(g-1)+r), Batches: batches, Page: 0, Codec: sut.Snappy}
+				ok = true
+			}
+		}
+		if !ok {
+			return "unknown workload " + tc.Workload
+		}
 	}
 	return runPrefix(w, tc.Len)
 }
